@@ -162,11 +162,13 @@ type precCase struct {
 	logBytes  []byte
 	haveLog   bool
 	large     bool
-	medium    logMedium // what holds the log file (drawn last, so that the rest of the case does not depend on it)
+	medium    logMedium         // what holds the log file (drawn last, so that the rest of the case does not depend on it)
 	rimOffset int               // offset of the first RIM event in the event stream (after the header record)
 	varFiles  map[string][]byte // file name under the efivarfs root -> content
 	rawBlob   map[int][]byte    // event index -> raw locator
 	varBlob   map[int][]byte    // event index -> variable payload (content[4:])
+	varName   map[int]string    // event index -> file name of the variable under the efivarfs root
+	platOf    map[int]string    // set before build: event index -> platform manufacturer that differs from the firmware manufacturer
 	uriOf     map[int]string
 }
 
@@ -218,6 +220,11 @@ func (pc *precCase) build(r *rand.Rand, id int) {
 				return k
 			}
 		}
+		for _, k := range extraQuoteKinds {
+			if k.name == n {
+				return k
+			}
+		}
 		panic(n)
 	}
 	switch pc.prov {
@@ -234,13 +241,17 @@ func (pc *precCase) build(r *rand.Rand, id int) {
 		pc.provRecog = k.name != "garbage"
 	}
 	// event log
-	pc.varFiles, pc.rawBlob, pc.varBlob, pc.uriOf = map[string][]byte{}, map[int][]byte{}, map[int][]byte{}, map[int]string{}
+	pc.varFiles, pc.rawBlob, pc.varBlob, pc.uriOf, pc.varName = map[string][]byte{}, map[int][]byte{}, map[int][]byte{}, map[int]string{}, map[int]string{}
 	guid := [16]byte{}
 	copy(guid[:], randBytes(r, 16))
 	rim := [16]byte{}
 	copy(rim[:], randBytes(r, 16))
 	mkEvent := func(idx int, d evd) []byte {
-		e := &sp155{PlatMfrID: 11129, RimGUID: rim, PlatMfrStr: d.mfr, PlatModel: "Google Compute Engine", PlatVersion: "", FwMfrStr: d.mfr,
+		plat := d.mfr
+		if p, ok := pc.platOf[idx]; ok { // the platform manufacturer differs from the firmware manufacturer
+			plat = p
+		}
+		e := &sp155{PlatMfrID: 11129, RimGUID: rim, PlatMfrStr: plat, PlatModel: "Google Compute Engine", PlatVersion: "", FwMfrStr: d.mfr,
 			FwMfrID: 11129, FwVersion: "2.7", LocType: d.loc, Pad: []int{0, 0, 4, 7}[r.IntN(4)]}
 		switch d.loc {
 		case locRaw:
@@ -264,6 +275,7 @@ func (pc *precCase) build(r *rand.Rand, id int) {
 			payload := append([]byte(fmt.Sprintf("VAR:%d:%d:", id, idx)), randBytes(r, 1+r.IntN(300))...)
 			content := append([]byte{7, 0, 0, 0}, payload...)
 			fname := name + "-" + guidText(g)
+			pc.varName[idx] = fname
 			switch d.vstate {
 			case "present":
 				pc.varFiles[fname] = content
@@ -502,7 +514,9 @@ func (pc *precCase) runDirect(c *core.Ctx, i int, gen string, log *placedLog, ef
 		opts.Provider = &provider{quote: pc.provQuote}
 	}
 	var m core.Measured
-	log.serve(func() { m = c.Guard(i, entryDirect, gen, core.Budget{}, func() { o.out, o.err = extract.Endorsement(opts) }) })
+	log.serve(func() {
+		m = c.Guard(i, entryDirect, gen, core.Budget{}, func() { o.out, o.err = extract.Endorsement(opts) })
+	})
 	o.urls, o.panicked = g.urls, m.Panicked
 	return o
 }
@@ -694,7 +708,7 @@ func precDecode(idx int) *precCase {
 
 type precStats struct {
 	local, localDeep, localPipe, entry, fetched, uriSel, cliRuns int
-	sampled                                           map[string]bool
+	sampled                                                      map[string]bool
 }
 
 // runPrec runs case i (product index idx).
